@@ -46,9 +46,11 @@ def point(label):
     if label.startswith('D:'):
         Gate.counter += 1
         Gate.log.append((Gate.counter, label))
+        if Gate.on_event is not None:
+            Gate.on_event(label)       # logged before the event happens (and before a cut)
         if Gate.crash_at == Gate.counter:
             os._exit(77)
-    if Gate.on_event is not None:
+    elif Gate.on_event is not None:
         Gate.on_event(label)
     job = getattr(_tl, 'job', None)
     if job is None or not Gate.enabled:
@@ -320,6 +322,8 @@ def install_failpoints():
             p = max(1, min(n - 1, p)) if n > 1 else 0
             Gate.counter += 1
             Gate.log.append((Gate.counter, f'D:file:{kind}:write TORN {p}/{n}'))
+            if Gate.on_event is not None:
+                Gate.on_event(f'D:file:{kind}:write')
             if p:
                 ow(self, start, bytes(b[:p]))
             os._exit(77)
